@@ -75,6 +75,14 @@ def gen(tier, rng):
                     mk("cmp" + op, "bool", par2, "return %s %s %s;" % (wa, op, wb), ["return a %s b;" % op])
                     mk("cmp%s/rhs-builtin" % op, "bool", par2, "return %s %s b;" % (wa, op), ["return a %s b;" % op])
                     mk("cmp%s/lhs-builtin" % op, "bool", par2, "return a %s %s;" % (op, wb), ["return a %s b;" % op])
+                if R.bits < 64 and (tier != "quick" or R in (I8, U8, I32, U32)):
+                    # a built-in operand of a WIDER type than the wrapper's rep: the built-in expression converts the
+                    # narrow side up, never the wide side down (seeded change M-C12-3)
+                    for wide in ("long long", "unsigned long long"):
+                        parw = [(wide, "a"), (R.name, "b")]
+                        for op in CMPS:
+                            mk("cmp%s/lhs-wider-builtin/%s" % (op, wide.split()[0]), "bool", parw, "return a %s %s;" % (op, wb), ["return a %s b;" % op])
+                            mk("cmp%s/rhs-wider-builtin/%s" % (op, wide.split()[0]), "bool", [(R.name, "a"), (wide, "b")], "return %s %s b;" % (wa, op), ["return a %s b;" % op])
                 for op in UNARY:
                     mk("un" + op, P.name, par1, "return unwrap(%s%s);" % (op, wa), ["return %sa;" % op])
                 # mixed built-in operand
